@@ -88,6 +88,14 @@ func main() {
 			fatal(err)
 		}
 		emit(d)
+	case "scenarios":
+		f, _ := parseFlags(cmd, args)
+		ss, _ := bodies.Scenarios(f.repo)
+		var names []string
+		for _, s := range ss {
+			names = append(names, s.Name())
+		}
+		emit(names)
 	case "maporder":
 		f, _ := parseFlags(cmd, args)
 		emit(runMapOrder(f))
@@ -118,6 +126,9 @@ func runReplay(f *flags, path string) any {
 	}
 	if probe.Kind == "maporder" {
 		return replayMapOrder(b)
+	}
+	if probe.Kind == "solo" {
+		return replaySolo(f, b)
 	}
 	return replayInterleave(f, path)
 }
